@@ -1,5 +1,6 @@
 pub mod bep42;
 pub mod storage;
+pub mod table;
 pub mod tid;
 pub mod token;
 
@@ -9,6 +10,7 @@ pub fn make(name: &str) -> Option<Box<dyn Engine>> {
     match name {
         "bep42" => Some(Box::new(bep42::Bep42::default())),
         "storage" => Some(Box::new(storage::StorageEngine::default())),
+        "table" => Some(Box::new(table::TableEngine::default())),
         "tid" => Some(Box::new(tid::Tid::default())),
         "token" => Some(Box::new(token::TokenEngine::default())),
         _ => None,
